@@ -2,6 +2,7 @@
 import Driver.Common
 import AskarModel.Model.Store
 import AskarModel.Model.Session
+import AskarModel.Model.Fault
 import AskarModel.Model.Like
 
 open Lean Askar Askar.Wql Askar.Store
@@ -106,6 +107,18 @@ def activate (st : St) (i : Nat) : St × Except Err Sess :=
       | .ok (s, h) => ({ st with h := h }.setSess i { ss with sess := some s }, .ok s)
       | .error e => (st, .error e)
 
+def faultOpt (j : Json) : Option FaultAt :=
+  match getD? j "fault" with
+  | none => none
+  | some f =>
+    match str! f "at" with
+    | "tag" => some (.tag (nat! f "k"))
+    | "tagdel" => some .tagdel
+    | "item" => some .item
+    | "itemupd" => some .itemupd
+    | "itemdel" => some .itemdel
+    | _ => none
+
 def kindOpt (j : Json) : Option Kind := natOpt j "k"
 
 def sessionlessScan (st : St) (j : Json) : St × Json :=
@@ -170,7 +183,13 @@ def stepOp (st : St) (j : Json) : St × Json :=
       match mop with
       | none => (st, jerr "BadOp")
       | some mop =>
-        let (tx', out) := TxStore.step sqliteLike st.page st.now st.tx (.stmt i isTxn s mop)
+        let (tx', out) :=
+          match faultOpt j with
+          | none => TxStore.step sqliteLike st.page st.now st.tx (.stmt i isTxn s mop)
+          | some f =>
+            -- injected statement fault (generated only for plain sessions while no transaction is open)
+            let (db', o) := stepF sqliteLike st.page st.now (some f) s st.tx.db mop
+            ({ st.tx with db := db' }, o)
         let st := { st with tx := tx' }
         match out with
         | .ok => (st, "ok")
